@@ -1,22 +1,31 @@
 import GceTcb.Proofs.Manifest
+import GceTcb.Proofs.ManifestFS
 /-
 C13 — The endorsement manifest stays a faithful index over every endorse history.
-Property theorems only (helper lemmas live in Proofs/Manifest.lean).
+Property theorems only (helper lemmas live in Proofs/Manifest.lean, Proofs/ManifestFS.lean,
+Proofs/PathClean.lean).
 
-Model scope: manifest mode of `endorse.changeEndorsements` (no snapshot directory, not dry-run),
-candidate names in canonical spelling; snapshot-mode runs (separate snapshot directory) leave the
-store of the output directory untouched.
+Two models of `endorse.changeEndorsements` (not dry-run), both for ARBITRARY candidate names (the name
+is cleaned and tested the way `defaultGenerateBasename` does it, through the model of Go's path.Clean):
+* `endorseRun` — the output directory seen from inside: files keyed by their cleaned name, snapshot-mode
+  runs elsewhere (theorems `C13_inv_step` … `C13_other_files_untouched`);
+* `endorseRunP` — full paths: arbitrary root, --out_dir, --snapshot_dir, image name; every path through
+  the model of path.Join; snapshot runs write their files into the same file map (theorems `…_paths`,
+  `C13_canonical_names`, `C13_no_escape`, `C13_snapshot_*`). `C13_inside_view` relates the two.
 -/
 namespace GceTcb.Manifest
+open GceTcb.Paths GceTcb.SecureJoin
 
 /-- One run preserves the invariant: paths unique, digests unique, every entry's path names a file
     whose signed firmware digest equals the entry's digest. -/
 theorem C13_inv_step (s : Store) (r : Run) (h : Inv s) : Inv (endorseRun s r).1 := by
   by_cases hsn : r.snapshot = true
   · simp only [endorseRun, hsn, if_true]; exact h
+  by_cases hok : nameOk r.cand = true
+  case neg => simp only [endorseRun, hsn, hok]; exact h
   by_cases hc : ((lookup s.files (basename r.cand)).isSome && !r.overwrite) = true
-  · simp only [endorseRun, hsn, hc, if_true]; exact h
-  · simp only [endorseRun, hsn, hc]
+  · simp only [endorseRun, hsn, hok, hc, if_true]; exact h
+  · simp only [endorseRun, hsn, hok, hc]
     exact ⟨unique_addEntry _ _ h.1, faithful_addEntry _ _ ⟨basename r.cand, r.digest, r.time⟩ h.1 h.2⟩
 
 /-- Every reachable store (any history of runs from the empty store) satisfies the invariant. -/
@@ -34,9 +43,11 @@ theorem C13_latest_maps (s : Store) (r : Run) (h : Inv s) (hsn : r.snapshot = fa
     (⟨basename r.cand, r.digest, r.time⟩ : Entry) ∈ (endorseRun s r).1.manifest ∧
     lookup (endorseRun s r).1.files (basename r.cand) = some r.digest ∧
     (∀ x ∈ (endorseRun s r).1.manifest, x.digest = r.digest → x.path = basename r.cand) := by
+  by_cases hok : nameOk r.cand = true
+  case neg => simp [endorseRun, hsn, hok] at ok
   by_cases hc : ((lookup s.files (basename r.cand)).isSome && !r.overwrite) = true
-  · simp [endorseRun, hsn, hc] at ok
-  · simp only [endorseRun, hsn, hc]
+  · simp [endorseRun, hsn, hok, hc] at ok
+  · simp only [endorseRun, hsn, hok, hc]
     have hm := mem_addEntry s.manifest ⟨basename r.cand, r.digest, r.time⟩ h.1
     refine ⟨hm, by simp [lookup_writeFile], ?_⟩
     intro x hx hd
@@ -51,16 +62,397 @@ theorem C13_no_overwrite_without_permission (s : Store) (r : Run)
   unfold endorseRun
   by_cases hsn : r.snapshot = true
   · simp [hsn]
-  · simp [hsn, hex, hno]
+  · by_cases hok : nameOk r.cand = true <;> simp [hsn, hok, hex, hno]
 
 /-- Files other than the one the run names are never touched. -/
 theorem C13_other_files_untouched (s : Store) (r : Run) (q : String) (hq : q ≠ basename r.cand) :
     lookup (endorseRun s r).1.files q = lookup s.files q := by
   by_cases hsn : r.snapshot = true
   · simp only [endorseRun, hsn, if_true]
+  by_cases hok : nameOk r.cand = true
+  case neg => simp [endorseRun, hsn, hok]
   by_cases hc : ((lookup s.files (basename r.cand)).isSome && !r.overwrite) = true
-  · simp [endorseRun, hsn, hc]
-  · simp [endorseRun, hsn, hc, lookup_writeFile, hq]
+  · simp [endorseRun, hsn, hok, hc]
+  · simp [endorseRun, hsn, hok, hc, lookup_writeFile, hq]
+
+/-! ## arbitrary names: the run over full paths -/
+
+/-- A snapshot run whose files stay clear of the output directory's own names: none of the paths it
+    writes is the path of a clean local name below --out_dir (the manifest and every file the manifest
+    can list are such paths). True whenever --snapshot_dir and --out_dir are different directories that
+    do not contain one another and the image name is a local name; `C13_snapshot_overlap_witness` shows
+    that it cannot be dropped. -/
+def SnapOutside (d : Dirs) (r : RunP) : Prop :=
+  ∀ t ∈ snapTargets d r, ∀ b, LocalClean b → t.1 ≠ fullOut d b
+
+/-- One run — any candidate name, root, --out_dir; snapshot runs clear of the output directory —
+    preserves the invariant: the manifest parses, lists no path text and no digest twice, every listed
+    path is canonical and local, no two entries name the same file, every entry's file is an endorsement
+    carrying the entry's digest. -/
+theorem C13_inv_step_paths (d : Dirs) (fs : FS) (r : RunP) (h : InvP d fs)
+    (hs : r.snapDir ≠ "" → SnapOutside d r) : InvP d (endorseRunP d fs r).1 := by
+  obtain ⟨m, hm, hu, hl, hnd, hf⟩ := h
+  unfold endorseRunP
+  by_cases hsn : r.snapDir = ""
+  · simp only [hsn, bne_self_eq_false, Bool.false_eq_true, if_false, hm]
+    by_cases hok : nameOk r.cand = true
+    case neg => simp only [hok]; exact ⟨m, hm, hu, hl, hnd, hf⟩
+    by_cases hc : ((look fs (fullOut d (basename r.cand))).isSome && !r.overwrite) = true
+    · simp only [hok, hc, if_true, Bool.not_true, Bool.false_eq_true, if_false]; exact ⟨m, hm, hu, hl, hnd, hf⟩
+    · simp only [hok, hc, Bool.not_true, Bool.false_eq_true, if_false]
+      have hb : LocalClean (basename r.cand) := nameOk_local r.cand hok
+      have hpM : fullOut d (basename r.cand) ≠ fullOut d manifestFile :=
+        fullOut_ne_manifest d hb (basename_ne_manifestFile r.cand)
+      have hu' := unique_addEntry m ⟨basename r.cand, r.digest, r.time⟩ hu
+      have hl' : ∀ x ∈ addEntry m ⟨basename r.cand, r.digest, r.time⟩, LocalClean x.path := by
+        intro x hx
+        rcases addEntry_subset m _ x hx with hx | rfl
+        · exact hl x hx
+        · exact hb
+      refine ⟨_, by simp [readM, look_put], hu', hl', files_nodup d _ hu' hl', ?_⟩
+      -- every entry finds its digest: the merge seen through the full path of each name
+      have key := faithful_addEntry_gen LocalClean (digestAt d fs)
+        (digestAt d (put (put fs (fullOut d (basename r.cand)) (.endorsement r.digest)) (fullOut d manifestFile)
+          (.manifest (addEntry m ⟨basename r.cand, r.digest, r.time⟩))))
+        m ⟨basename r.cand, r.digest, r.time⟩ hu hl ?_ ?_ ?_
+      · intro x hx
+        have := key x hx
+        unfold digestAt at this
+        split at this
+        · rename_i dg hlk; cases this; exact hlk
+        · cases this
+      · intro q hq
+        show digestAt d _ q = if q = basename r.cand then some r.digest else digestAt d fs q
+        unfold digestAt
+        rw [look_put, look_put]
+        by_cases hqM : fullOut d q = fullOut d manifestFile
+        · have hqm : q = manifestFile := fullOut_inj d q manifestFile hq manifestFile_local hqM
+          have hqb : q ≠ basename r.cand := fun e => basename_ne_manifestFile r.cand (e ▸ hqm)
+          rw [if_pos hqM, if_neg hqb, hqM]
+          simp only [readM] at hm
+          split at hm <;> simp_all
+        · rw [if_neg hqM]
+          by_cases hqb : q = basename r.cand
+          · subst hqb; simp
+          · have : fullOut d q ≠ fullOut d (basename r.cand) := fun e => hqb (fullOut_inj d _ _ hq hb e)
+            rw [if_neg this, if_neg hqb]
+      · show digestAt d _ (basename r.cand) = some r.digest
+        unfold digestAt
+        rw [look_put, look_put, if_neg hpM]
+        simp
+      · intro x hx
+        unfold digestAt
+        rw [hf x hx]
+  · have hsn' : (r.snapDir != "") = true := by simpa using hsn
+    simp only [hsn', if_true]
+    have hout := hs hsn
+    have hM : look (putAll fs (snapTargets d r)) (fullOut d manifestFile) = look fs (fullOut d manifestFile) :=
+      look_putAll _ fs _ (fun t ht => hout t ht manifestFile manifestFile_local)
+    refine ⟨m, by simp only [readM, hM]; exact hm, hu, hl, hnd, ?_⟩
+    intro x hx
+    rw [look_putAll _ fs _ (fun t ht => hout t ht x.path (hl x hx))]
+    exact hf x hx
+
+/-- Every history — any candidate names, overwrite settings, root and --out_dir; snapshot runs clear of
+    the output directory — ends in a state satisfying the invariant. -/
+theorem C13_inv_reachable_paths (d : Dirs) (rs : List RunP)
+    (hs : ∀ r ∈ rs, r.snapDir ≠ "" → SnapOutside d r) : InvP d (runAllP d [] rs) := by
+  have gen : ∀ (rs : List RunP) (fs : FS), (∀ r ∈ rs, r.snapDir ≠ "" → SnapOutside d r) → InvP d fs →
+      InvP d (runAllP d fs rs) := by
+    intro rs
+    induction rs with
+    | nil => intro fs _ h; exact h
+    | cons r rs ih =>
+      intro fs hs h
+      exact ih _ (fun x hx => hs x (List.mem_cons_of_mem _ hx))
+        (C13_inv_step_paths d fs r h (hs r List.mem_cons_self))
+  exact gen rs [] hs (invP_empty d)
+
+/-- The firmware digest of the latest successful manifest-mode run maps to the file that run wrote:
+    the new entry is in the manifest under the cleaned name, the file at that name's full path holds the
+    endorsement of this digest, no other entry has the digest, and apart from the manifest that file is
+    the only one whose contents the run changed. -/
+theorem C13_latest_maps_paths (d : Dirs) (fs : FS) (r : RunP) (h : InvP d fs) (hsn : r.snapDir = "")
+    (ok : (endorseRunP d fs r).2 = true) :
+    ∃ m', readM (endorseRunP d fs r).1 (fullOut d manifestFile) = some m' ∧
+      (⟨basename r.cand, r.digest, r.time⟩ : Entry) ∈ m' ∧
+      look (endorseRunP d fs r).1 (fullOut d (basename r.cand)) = some (.endorsement r.digest) ∧
+      (∀ x ∈ m', x.digest = r.digest → x.path = basename r.cand) ∧
+      (∀ q, q ≠ fullOut d (basename r.cand) → q ≠ fullOut d manifestFile →
+        look (endorseRunP d fs r).1 q = look fs q) := by
+  obtain ⟨m, hm, hu, hl, hnd, hf⟩ := h
+  unfold endorseRunP at ok ⊢
+  simp only [hsn, bne_self_eq_false, Bool.false_eq_true, if_false, hm] at ok ⊢
+  by_cases hok : nameOk r.cand = true
+  case neg => simp [hok] at ok
+  by_cases hc : ((look fs (fullOut d (basename r.cand))).isSome && !r.overwrite) = true
+  · simp [hok, hc] at ok
+  · simp only [hok, hc, Bool.not_true, Bool.false_eq_true, if_false]
+    have hb : LocalClean (basename r.cand) := nameOk_local r.cand hok
+    have hpM : fullOut d (basename r.cand) ≠ fullOut d manifestFile :=
+      fullOut_ne_manifest d hb (basename_ne_manifestFile r.cand)
+    have hmem := mem_addEntry m ⟨basename r.cand, r.digest, r.time⟩ hu
+    have hu' := unique_addEntry m ⟨basename r.cand, r.digest, r.time⟩ hu
+    refine ⟨_, by simp [readM, look_put], hmem, by rw [look_put, look_put, if_neg hpM]; simp, ?_, ?_⟩
+    · intro x hx hd
+      have := inj_of_nodup_map (·.digest) _ hu'.2 hx hmem (by simpa using hd)
+      rw [this]
+    · intro q h1 h2
+      rw [look_put, look_put, if_neg h2, if_neg h1]
+
+/-- Without overwrite permission an existing file at the candidate's full path is never replaced:
+    the run fails and nothing changes. -/
+theorem C13_no_overwrite_paths (d : Dirs) (fs : FS) (r : RunP) (hsn : r.snapDir = "")
+    (hex : (look fs (fullOut d (basename r.cand))).isSome = true) (hno : r.overwrite = false) :
+    endorseRunP d fs r = (fs, false) := by
+  unfold endorseRunP
+  simp only [hsn, bne_self_eq_false, Bool.false_eq_true, if_false]
+  split
+  · rfl
+  · by_cases hok : nameOk r.cand = true <;> simp [hok, hex, hno]
+
+/-- Canonical names. Every path the manifest records is in canonical form (path.Clean leaves it
+    alone; it passes the name test; path.Clean is idempotent on every text), and two accepted candidate
+    names denote the same file exactly when their cleaned basenames are equal — whatever root and
+    --out_dir are, and for both kinds of ReleasePath. -/
+theorem C13_canonical_names (d : Dirs) :
+    (∀ s : String, pclean (pclean s) = pclean s) ∧
+    (∀ cand : String, pclean (basename cand) = basename cand) ∧
+    (∀ fs, InvP d fs → ∃ m, readM fs (fullOut d manifestFile) = some m ∧
+        ∀ x ∈ m, pclean x.path = x.path ∧ localName x.path = true) ∧
+    (∀ c₁ c₂ : String, nameOk c₁ = true → nameOk c₂ = true →
+        (fullOut d (basename c₁) = fullOut d (basename c₂) ↔ basename c₁ = basename c₂)) := by
+  refine ⟨pclean_idem, fun cand => pclean_idem _, ?_, ?_⟩
+  · intro fs ⟨m, hm, _, hl, _, _⟩
+    exact ⟨m, hm, fun x hx => ⟨(hl x hx).pclean_eq, (hl x hx).localName⟩⟩
+  · intro c₁ c₂ h₁ h₂
+    exact ⟨fullOut_inj d _ _ (nameOk_local c₁ h₁) (nameOk_local c₂ h₂), fun e => by rw [e]⟩
+
+/-- Laws of path.Clean / path.Join used above, on all texts: Clean is idempotent and never empty; a clean
+    local path is a fixed point; Join is associative up to Clean for a non-empty relative inner element —
+    so for a relative --out_dir the path of a name is `path.Join(root, out_dir, name)` when ReleasePath joins. -/
+theorem C13_path_laws :
+    (∀ s, pclean (pclean s) = pclean s) ∧ (∀ s, pclean s ≠ "") ∧
+    (∀ b, LocalClean b → pclean b = b ∧ localName b = true) ∧
+    (∀ a b c, b ≠ "" → pisAbs b = false → pjoin [a, pjoin [b, c]] = pjoin [a, b, c]) ∧
+    (∀ root outDir b, outDir ≠ "" → pisAbs outDir = false →
+      fullOut ⟨.join, root, outDir⟩ b = pjoin [root, outDir, b]) :=
+  ⟨pclean_idem, pclean_ne_empty, fun _ h => ⟨h.pclean_eq, h.localName⟩, pjoin_assoc,
+    fun root outDir b h1 h2 => pjoin_assoc root outDir b h1 h2⟩
+
+/-- Which names are refused: exactly those whose cleaned basename is rooted or starts with "../". -/
+theorem C13_refused_iff (cand : String) :
+    nameOk cand = false ↔ (pisAbs (basename cand) = true ∨ climbs (basename cand) = true) := by
+  unfold nameOk localName
+  cases pisAbs (basename cand) <;> cases climbs (basename cand) <;> simp
+
+/-- No escape from the output directory. The manifest's full path is a fixed text (`pre`: empty for a
+    ReleasePath that joins, root + "/" for one that concatenates) followed by a cleaned directory (rooted
+    or not, components `T`) extended by "manifest.textproto". A manifest-mode run with a refused name
+    (rooted, or climbing: "/rc0", "../x", "../out/rc0", "a/../../x") fails and writes nothing. A run with
+    an accepted name can change the contents of two paths only — the manifest and the file of the cleaned
+    name — and that file's path is `pre` followed by the SAME cleaned directory extended by the one or more
+    normal components of the name: it lies in the manifest's directory or below it. -/
+theorem C13_no_escape (d : Dirs) :
+    ∃ (pre : PathStr) (rooted : Bool) (T : List Name),
+      (fullOut d manifestFile).toList = pre ++ renderClean rooted (T ++ [manifestFile.toList]) ∧
+      ∀ (fs : FS) (r : RunP), r.snapDir = "" →
+        (nameOk r.cand = false → endorseRunP d fs r = (fs, false)) ∧
+        (nameOk r.cand = true → ∃ ns, AllNormal ns ∧ ns ≠ [] ∧ (basename r.cand).toList = renderRel ns ∧
+          (fullOut d (basename r.cand)).toList = pre ++ renderClean rooted (T ++ ns) ∧
+          ∀ q, q ≠ fullOut d (basename r.cand) → q ≠ fullOut d manifestFile →
+            look (endorseRunP d fs r).1 q = look fs q) := by
+  obtain ⟨pre, rt, T, _, hE⟩ := outPath_ext d.mode d.root d.outDir
+  obtain ⟨mns, hmn, hm0, hmb⟩ := manifestFile_local
+  refine ⟨pre, rt, T, ?_, ?_⟩
+  · have := hE manifestFile [manifestFile.toList] (by
+      intro c hc; simp only [List.mem_singleton] at hc; rw [hc]
+      exact ⟨by decide, by decide, by decide, by decide⟩) (by simp) (by decide)
+    exact this
+  · intro fs r hsn
+    constructor
+    · intro hno
+      unfold endorseRunP
+      simp only [hsn, bne_self_eq_false, Bool.false_eq_true, if_false]
+      split
+      · rfl
+      · simp [hno]
+    · intro hok
+      obtain ⟨ns, hn, h0, hb⟩ := nameOk_local r.cand hok
+      refine ⟨ns, hn, h0, hb, hE _ ns hn h0 hb, ?_⟩
+      intro q h1 h2
+      unfold endorseRunP
+      simp only [hsn, bne_self_eq_false, Bool.false_eq_true, if_false]
+      split
+      · rfl
+      · split
+        · rfl
+        · split
+          · rfl
+          · rw [look_put, look_put, if_neg h2, if_neg h1]
+
+/-- Accepted and refused spellings, evaluated: redundant elements, a trailing slash, "." and ".." as
+    whole names (they become "..binarypb" and "...binarypb"), unicode are accepted and cleaned; rooted and
+    climbing names are refused. -/
+theorem C13_name_examples :
+    basename "x/../rc0" = "rc0.binarypb" ∧ basename "./a//b/" = "a/b/.binarypb" ∧ basename "" = "endorsement.binarypb" ∧
+    basename "." = "..binarypb" ∧ basename ".." = "...binarypb" ∧ basename "é/日本" = "é/日本.binarypb" ∧
+    (["x/../rc0", "./a//b/", "", ".", "..", "é/日本", "sub/../sub/rc2"].all nameOk) = true ∧
+    (["/rc0", "../x", "../out/rc0", "a/../../x", "//", "/", "../"].any nameOk) = false := by
+  decide +kernel
+
+/-- The name test is what makes it hold. On the code before `fix: refuse candidate names …` (same run
+    without the test) the history "rc0" with firmware aa, then "/rc0" with firmware bb and --overwrite
+    (out dir "out") writes the SAME file twice and leaves two entries for it, the older claiming a digest
+    the file no longer carries; the same with "../out/rc0" (`exNoTest1..3` in Proofs/ManifestFS.lean:
+    root "/R", ReleasePath = path.Join). -/
+theorem C13_name_test_needed :
+    readM exNoTest2 (fullOut exDirs manifestFile) = some [⟨"rc0.binarypb", "aa", "1"⟩, ⟨"/rc0.binarypb", "bb", "2"⟩] ∧
+    look exNoTest2 (fullOut exDirs "rc0.binarypb") = some (.endorsement "bb") ∧
+    fullOut exDirs "/rc0.binarypb" = fullOut exDirs "rc0.binarypb" ∧
+    readM exNoTest3 (fullOut exDirs manifestFile) = some [⟨"rc0.binarypb", "aa", "1"⟩, ⟨"../out/rc0.binarypb", "bb", "2"⟩] ∧
+    look exNoTest3 (fullOut exDirs "rc0.binarypb") = some (.endorsement "bb") ∧
+    ¬ InvP exDirs exNoTest2 := by
+  have h1 : readM exNoTest2 (fullOut exDirs manifestFile) =
+      some [⟨"rc0.binarypb", "aa", "1"⟩, ⟨"/rc0.binarypb", "bb", "2"⟩] := by decide +kernel
+  have h2 : look exNoTest2 (fullOut exDirs "rc0.binarypb") = some (.endorsement "bb") := by decide +kernel
+  refine ⟨h1, h2, by decide +kernel, by decide +kernel, by decide +kernel, ?_⟩
+  intro ⟨m, hm, _, _, _, hf⟩
+  rw [h1] at hm
+  cases hm
+  have := hf ⟨"rc0.binarypb", "aa", "1"⟩ (by simp)
+  rw [h2] at this
+  exact absurd this (by decide)
+
+/-! ## snapshot runs -/
+
+/-- What a snapshot run writes: the firmware path `fw = ReleasePath(Join(snapshot_dir, image name))` and
+    the SVSM path with the fixed suffixes — nothing else, and the manifest is neither read nor written
+    by it. -/
+theorem C13_snapshot_paths (d : Dirs) (fs : FS) (r : RunP) (hsn : r.snapDir ≠ "") :
+    endorseRunP d fs r = (putAll fs (snapTargets d r), true) ∧
+    ∀ t ∈ snapTargets d r, ∃ base ∈ [release d.mode d.root (pjoin [r.snapDir, r.imageName]),
+        release d.mode d.root (pjoin [r.snapDir, "svsm.igvm"])],
+      ∃ suffix ∈ ["", ".signed", ".evts.pb", ".scrtm.pb"], t.1 = base ++ suffix := by
+  constructor
+  · unfold endorseRunP
+    have : (r.snapDir != "") = true := by simpa using hsn
+    simp [this]
+  · intro t ht
+    unfold snapTargets snapSigs snapFiles at ht
+    cases hsv : r.svsm <;> cases hsc : r.scrtm <;> simp [hsv, hsc] at ht <;>
+      rcases ht with rfl | rfl | rfl | rfl | rfl | rfl | rfl | rfl <;> simp
+
+/-- A snapshot run with a clean local image name stays below the snapshot directory: the firmware
+    path is the fixed text and cleaned directory of --snapshot_dir extended by the components of the
+    image name (the other files are that path and the SVSM path with a suffix: same directories). -/
+theorem C13_snapshot_confined (d : Dirs) (r : RunP) (h : LocalClean r.imageName) :
+    ∃ (pre : PathStr) (rooted : Bool) (T : List Name) (ns : List Name), AllNormal ns ∧ ns ≠ [] ∧
+      (release d.mode d.root (pjoin [r.snapDir, r.imageName])).toList = pre ++ renderClean rooted (T ++ ns) ∧
+      (release d.mode d.root (pjoin [r.snapDir, "svsm.igvm"])).toList = pre ++ renderClean rooted (T ++ ["svsm.igvm".toList]) := by
+  obtain ⟨pre, rt, T, _, hE⟩ := outPath_ext d.mode d.root r.snapDir
+  obtain ⟨ns, hn, h0, hb⟩ := h
+  refine ⟨pre, rt, T, ns, hn, h0, hE _ ns hn h0 hb, ?_⟩
+  exact hE "svsm.igvm" ["svsm.igvm".toList] (by
+    intro c hc; simp only [List.mem_singleton] at hc; rw [hc]
+    exact ⟨by decide +kernel, by decide +kernel, by decide +kernel, by decide +kernel⟩) (by simp) (by decide +kernel)
+
+/-- …and with an image name that is not local it does not (observation O-snap: `ImageName` is set by the
+    command line to path.Base of the firmware path, so only a caller of the library can do this): the
+    empty name and "." write "snap", "snap.signed", … BESIDE the snapshot directory "snap", "../q/fw.fd"
+    writes into a sibling directory, "/" with --snapshot_dir "/" writes "<root>.signed" beside the root. -/
+theorem C13_snapshot_escape_witness :
+    let d : Dirs := ⟨.join, "/R", "out"⟩
+    (snapTargets d ⟨"x", "aa", "1", false, "snap", "", false, false⟩).map (·.1) = ["/R/snap.signed", "/R/snap", "/R/snap.evts.pb"] ∧
+    (snapTargets d ⟨"x", "aa", "1", false, "snap", "../q/fw.fd", false, false⟩).map (·.1) =
+      ["/R/q/fw.fd.signed", "/R/q/fw.fd", "/R/q/fw.fd.evts.pb"] ∧
+    (snapTargets d ⟨"x", "aa", "1", false, "/", "/", false, false⟩).map (·.1) = ["/R.signed", "/R", "/R.evts.pb"] := by
+  decide +kernel
+
+/-- `SnapOutside` cannot be dropped from `C13_inv_step_paths`: with --snapshot_dir equal to --out_dir
+    and a firmware image named like an endorsement file, the snapshot run replaces the listed file by
+    the firmware image; named like the manifest, it replaces the manifest, which then does not parse
+    (observation O-overlap; the two directories are configured to be the same and the image carries a
+    reserved name). -/
+theorem C13_snapshot_overlap_witness :
+    InvP exDirs exFs1 ∧ ¬ InvP exDirs exOverlapFile ∧ ¬ InvP exDirs exOverlapManifest ∧
+    readM exOverlapManifest (fullOut exDirs manifestFile) = none := by
+  have h3 : readM exOverlapManifest (fullOut exDirs manifestFile) = none := by decide +kernel
+  refine ⟨C13_inv_step_paths _ _ _ (invP_empty _) (fun h => absurd rfl h), ?_, ?_, h3⟩
+  · intro ⟨m, hm, _, _, _, hf⟩
+    have h1 : readM exOverlapFile (fullOut exDirs manifestFile) = some [⟨"rc0.binarypb", "aa", "1"⟩] := by decide +kernel
+    have h2 : look exOverlapFile (fullOut exDirs "rc0.binarypb") = some .blob := by decide +kernel
+    rw [h1] at hm
+    cases hm
+    have := hf ⟨"rc0.binarypb", "aa", "1"⟩ (by simp)
+    rw [h2] at this
+    exact absurd this (by decide)
+  · intro ⟨m, hm, _⟩
+    rw [h3] at hm
+    cases hm
+
+/-! ## the inside view is the run over full paths -/
+
+/-- The output directory seen from inside: the store `s` of `endorseRun` shows the manifest and, under
+    every clean local name, what the file map holds at that name's full path. -/
+def View (d : Dirs) (fs : FS) (s : Store) : Prop :=
+  readM fs (fullOut d manifestFile) = some s.manifest ∧
+  ∀ b, LocalClean b → b ≠ manifestFile → look fs (fullOut d b) = (lookup s.files b).map Content.endorsement
+
+def RunP.inside (r : RunP) : Run := ⟨r.cand, r.digest, r.time, r.overwrite, r.snapDir != ""⟩
+
+/-- `endorseRun` (the model the theorems `C13_inv_step` … `C13_other_files_untouched` are about) is the
+    inside view of `endorseRunP`, for every candidate name, root and --out_dir: related states stay
+    related and the two runs succeed or fail together. -/
+theorem C13_inside_view (d : Dirs) (fs : FS) (s : Store) (r : RunP) (hv : View d fs s)
+    (hs : r.snapDir ≠ "" → SnapOutside d r) :
+    View d (endorseRunP d fs r).1 (endorseRun s r.inside).1 ∧
+    (endorseRunP d fs r).2 = (endorseRun s r.inside).2 := by
+  obtain ⟨hm, hfl⟩ := hv
+  unfold endorseRunP endorseRun RunP.inside
+  by_cases hsn : r.snapDir = ""
+  · simp only [hsn, bne_self_eq_false, Bool.false_eq_true, if_false, hm]
+    by_cases hok : nameOk r.cand = true
+    case neg => simp [hok]; exact ⟨hm, hfl⟩
+    have hb : LocalClean (basename r.cand) := nameOk_local r.cand hok
+    have hbm := basename_ne_manifestFile r.cand
+    have hex : (look fs (fullOut d (basename r.cand))).isSome = (lookup s.files (basename r.cand)).isSome := by
+      rw [hfl _ hb hbm]; simp
+    by_cases hc : ((lookup s.files (basename r.cand)).isSome && !r.overwrite) = true
+    · simp only [hok, hex, hc, if_true, Bool.not_true, Bool.false_eq_true, if_false]; exact ⟨⟨hm, hfl⟩, trivial⟩
+    · simp only [hok, hex, hc, Bool.not_true, Bool.false_eq_true, if_false]
+      refine ⟨⟨by simp [readM, look_put], ?_⟩, trivial⟩
+      intro b hbl hbn
+      have h1 : fullOut d b ≠ fullOut d manifestFile := fullOut_ne_manifest d hbl hbn
+      rw [look_put, look_put, if_neg h1, lookup_writeFile]
+      by_cases hbb : b = basename r.cand
+      · subst hbb; simp
+      · have : fullOut d b ≠ fullOut d (basename r.cand) := fun e => hbb (fullOut_inj d _ _ hbl hb e)
+        rw [if_neg this, if_neg hbb]
+        exact hfl b hbl hbn
+  · have hsn' : (r.snapDir != "") = true := by simpa using hsn
+    simp only [hsn', if_true]
+    have hout := hs hsn
+    refine ⟨⟨?_, ?_⟩, trivial⟩
+    · simp only [readM, look_putAll _ fs _ (fun t ht => hout t ht manifestFile manifestFile_local)]
+      exact hm
+    · intro b hbl hbn
+      rw [look_putAll _ fs _ (fun t ht => hout t ht b hbl)]
+      exact hfl b hbl hbn
+
+/-- Non-vacuity (arbitrary names): a history over the full-path model with an uncanonical name, a
+    trailing-slash out dir, a refused climbing name and a refused rooted alias; the state reached has one
+    entry per file and satisfies the invariant. -/
+example :
+    let d : Dirs := ⟨.join, "/R", "./out//"⟩
+    let rs : List RunP := [⟨"rc0", "aa", "1", false, "", "", false, false⟩, ⟨"x/../rc0", "bb", "2", true, "", "", false, false⟩,
+      ⟨"../out/rc0", "cc", "3", true, "", "", false, false⟩, ⟨"/rc0", "cc", "4", true, "", "", false, false⟩,
+      ⟨"sub/./rc1", "aa", "5", false, "", "", false, false⟩]
+    readM (runAllP d [] rs) (fullOut d manifestFile) = some [⟨"rc0.binarypb", "bb", "2"⟩, ⟨"sub/rc1.binarypb", "aa", "5"⟩] ∧
+    look (runAllP d [] rs) "/R/out/rc0.binarypb" = some (.endorsement "bb") ∧
+    look (runAllP d [] rs) "/R/out/sub/rc1.binarypb" = some (.endorsement "aa") ∧
+    InvP d (runAllP d [] rs) := by
+  refine ⟨by decide +kernel, by decide +kernel, by decide +kernel, C13_inv_reachable_paths _ _ (by intro r hr h; simp at hr; rcases hr with rfl | rfl | rfl | rfl | rfl <;> exact absurd rfl h)⟩
 
 /-- Non-vacuity: a concrete three-run history that exercises the path branch with stale-digest
     removal, ending in a two-entry store that satisfies the invariant. -/
@@ -68,6 +460,6 @@ example :
     let rs : List Run := [⟨"rc0", "aa", "1", false, false⟩, ⟨"rc1", "bb", "2", false, false⟩, ⟨"rc0", "bb", "3", true, false⟩]
     (runAll Store.empty rs).manifest = [⟨"rc0.binarypb", "bb", "3"⟩] ∧
     lookup (runAll Store.empty rs).files "rc0.binarypb" = some "bb" := by
-  decide
+  decide +kernel
 
 end GceTcb.Manifest
